@@ -27,7 +27,17 @@ pub enum Finish {
     Respond { status: u16, body_len: usize, declared: bool, threshold: Option<usize> },
     /// `into_writer()`, then a complete hand-made response written in pieces cut at `cuts`
     /// (fractions of 1024), flushing after piece i when bit i of `flush_mask` is set
-    Writer { body_len: usize, cuts: Vec<u16>, flush_mask: u8 },
+    Writer {
+        body_len: usize,
+        cuts: Vec<u16>,
+        flush_mask: u8,
+        /// also issue `write(&[])` calls between the pieces (forwarding loops do that)
+        #[serde(default)]
+        zero_writes: bool,
+    },
+    /// `respond()` with a body reader that fails (error, or panic) after `fail_after` bytes of a
+    /// declared `declared_len`: whatever was written, no second response may follow
+    RespondFailing { declared_len: usize, fail_after: usize, panic: bool },
     /// `upgrade(proto, 101)`, read the stream to its end, write a short raw reply
     Upgrade { proto: String },
     Drop,
@@ -282,6 +292,15 @@ pub fn expect(case: &ConvCase) -> Expected {
                         raw_after: None,
                         interim_before: interim,
                     },
+                    Finish::RespondFailing { .. } => {
+                        // the outcome on the wire is the application's doing; only "not answered
+                        // twice" is checked (by its own oracle): the model stops here
+                        let ends = true;
+                        let _ = ends;
+                        models.push(m);
+                        ends_after = Some(i);
+                        break;
+                    }
                     Finish::Writer { body_len, .. } => ExpMsg { req_idx: i, status: 200, head: false, rid: Some(rq.id), body: Some(resp_body(rq.id, *body_len)), raw_after: None, interim_before: interim },
                     Finish::Upgrade { .. } => {
                         let n = rq.body_len();
